@@ -125,7 +125,9 @@ class database(fs_template.FsBased):
             except OSError as e:
                 raise KeyError(d, f"access failure: {e}") from e
             for l in subdirs:
-                if l.endswith(".cpickle"):
+                if l.endswith(".cpickle") or l.startswith(".update."):
+                    # .update.PID.name is the staging file of _setitem; one left
+                    # behind by an interrupted store is not a cache entry.
                     continue
                 p = pjoin(d, l)
                 try:
